@@ -10,6 +10,7 @@ import (
 	"strconv"
 	"time"
 
+	"verif/harness/alpha"
 	"verif/harness/checks"
 	"verif/harness/core"
 	"verif/harness/ref"
@@ -30,6 +31,9 @@ func Main() {
 	registerPanicReplayers()
 	if err := ref.SelfTest(); err != nil {
 		core.InternalError("reference model self-test failed: %v", err)
+	}
+	if !alpha.ElemLayoutOK {
+		core.InternalError("field.Element no longer has uint64 limb fields l0..l4: limb injection is impossible on this tree")
 	}
 	checks.VerifDir = *verif
 	if *out == "" {
